@@ -113,6 +113,17 @@ impl Planner {
         self.tx_id
     }
 
+    /// Returns the epoch to stamp on nodes and edges this plan creates.
+    ///
+    /// Inside a transaction they stay pending until commit.
+    fn write_epoch(&self) -> EpochId {
+        if self.tx_id.is_some() {
+            self.store.uncommitted_stamp(self.viewing_epoch)
+        } else {
+            self.viewing_epoch
+        }
+    }
+
     /// Returns a reference to the transaction manager, if available.
     #[must_use]
     pub fn tx_manager(&self) -> Option<&Arc<TransactionManager>> {
@@ -2590,7 +2601,7 @@ impl Planner {
                 output_schema,
                 output_column,
             )
-            .with_tx_context(self.viewing_epoch, self.tx_id),
+            .with_tx_context(self.write_epoch(), self.tx_id),
         );
 
         Ok((operator, columns))
@@ -2652,7 +2663,7 @@ impl Planner {
             output_schema,
         )
         .with_properties(properties)
-        .with_tx_context(self.viewing_epoch, self.tx_id);
+        .with_tx_context(self.write_epoch(), self.tx_id);
 
         if let Some(col) = output_column {
             operator = operator.with_output_column(col);
